@@ -49,6 +49,21 @@ CLAIMED["C02"] = (
     "DESIGN.md section 6 C02",
 )
 
+CLAIMED["C08"] = (
+    "The real set/get/shift_solution_values helpers and the EquationSystem wrappers are executed on "
+    "symbolic value arrays: (1) one shift from an arbitrary valid storage state with symbolic number of "
+    "stored levels and symbolic max_index (solver-driven case split) against the post-state relation; "
+    "(2) every history of write rounds, additive writes, bare shifts, overwrites and reads up to the "
+    "bound, for depths 1-3 and unbounded, against a sliding-window reference, with aliasing probes "
+    "(caller arrays and returned arrays are overwritten with fresh symbols afterwards). z3 decides "
+    "every stored/read entry for all written values; sampled witnesses and all counterexamples are "
+    "replayed on the float code.",
+    "Floats as exact reals; histories <= 4 ops (quick) / 6 (thorough); arrays of length 2 / the 10-dof "
+    "equation system; storage never pre-populated beyond the depth.",
+    "symbolic execution of the history helpers on z3 terms vs sliding-window reference + SMT",
+    "DESIGN.md section 6 C08",
+)
+
 NOT_APPLICABLE = {
     "C11": "MPFA local systems are inverted in LAPACK/numba kernels on data-dependent block structures; a symbolic inverse of the interaction-region blocks is beyond z3/cvc5 and with concrete matrices nothing quantified remains for a solver.",
     "C13": "MPSA: same obstacle as C11 with 2-3x larger local systems.",
